@@ -41,6 +41,24 @@ fn bases(seed: u64, tier: Tier) -> Vec<Vec<Chunk>> {
     v.push(vec![Chunk::U { reset: true, data: vec![0x55] }]);
     v.push(vec![Chunk::U { reset: true, data: (0..200u8).collect() }, Chunk::U { reset: false, data: vec![9; 3] }]);
     v.push(vec![c3((2, 2, 2), (0..60u32).map(|i| Sym::L(((i * 73 + 5) & 0xFF) as u8)).collect()), Chunk::C { class: 2, props: (4, 0, 0), prog: vec![Sym::M(60, 30), Sym::L(3), Sym::M(7, 2)] }]);
+    // chunks whose control byte has all size bits set (0x9F / 0xBF / 0xDF / 0xFF): only for these is a reserved value like
+    // 0x7F "self-consistent" if a decoder forgets the top bit
+    {
+        let mut big = vec![Sym::L(0x55)];
+        big.extend(std::iter::repeat(Sym::M(1, 273)).take(7681));
+        big.push(Sym::M(1, 238));
+        v.push(vec![c3((3, 0, 2), big.clone())]);
+        for class in 0..3u8 {
+            v.push(vec![c3((3, 0, 2), vec![Sym::L(0x41), Sym::L(0x42)]), Chunk::C { class, props: (3, 0, 2), prog: big.clone() }]);
+        }
+    }
+    // chunks that decode entirely from the five range-coder start bytes (one or two short reps with fresh probabilities)
+    for n in 1..=2usize {
+        v.push(vec![Chunk::U { reset: true, data: vec![0x61] }, Chunk::C { class: 2, props: (0, 0, 0), prog: vec![Sym::S; n] }]);
+        v.push(vec![Chunk::U { reset: true, data: vec![0x61] }, Chunk::C { class: 2, props: (0, 0, 0), prog: vec![Sym::S; n] }, Chunk::U { reset: false, data: vec![0x62] }]);
+        v.push(vec![c3((0, 0, 0), vec![Sym::L(0x61)]), Chunk::C { class: 1, props: (0, 0, 0), prog: vec![Sym::S; n] }]);
+        v.push(vec![c3((0, 0, 0), vec![Sym::L(0x61)]), Chunk::C { class: 1, props: (0, 0, 0), prog: vec![Sym::S; n] }, Chunk::U { reset: false, data: vec![0x62] }]);
+    }
     // a slice of the C02 space: all well-formed 2-chunk sequences over the reduced kinds
     let kinds = chunk_kinds(seed, true);
     let step = tier.pick(23usize, 1usize);
@@ -81,6 +99,9 @@ pub fn run(tier: Tier) -> i32 {
         let mut mutants: Vec<(String, Vec<u8>)> = Vec::new();
         for (ci, l) in w.layout.iter().enumerate() {
             for cb in 0x03..=0x7Fu8 {
+                if w.expect.len() > (1 << 20) && cb & 0x1F != 0x1F && cb % 16 != 0 {
+                    continue;
+                }
                 let mut m = w.bytes.clone();
                 m[l.control_off] = cb;
                 mutants.push((format!("chunk {} control byte := {:#04x}", ci, cb), m));
